@@ -131,7 +131,7 @@ CHECKS = {
 
 # what later rounds of seeded changes added to each exploration (appended to the level text)
 sys.path.insert(0, V)
-from mc.addenda import ADDENDA, ADDENDA6  # noqa: E402
+from mc import addenda  # noqa: E402
 
 PENDING_REASON = "check not built yet (work in progress; planned as bounded-exhaustive model checking, see DESIGN.md section 3)"
 
@@ -142,7 +142,7 @@ def main():
         if pid not in CHECKS:
             continue
         tech, text, note = CHECKS[pid]
-        text = (text + ' ' + ADDENDA.get(pid, '') + ' ' + ADDENDA6.get(pid, '')).strip()
+        text = (text + ' ' + addenda.text(pid)).strip()
         checks.append({
             'property_id': pid,
             'quick_cmd': f'./check {pid} --tier quick',
